@@ -31,35 +31,44 @@ def _depends_on(expr, names):
     return False
 
 
+def _body(fn):
+    return [s_ for s_ in fn.body if not (isinstance(s_, ast.Expr) and isinstance(s_.value, ast.Constant))]
+
+
 def rule_F1(ctx):
     """the state stored for the next block depends on the state carried in from earlier blocks"""
+    from .sem import straightline_ex, np_canon
     fn = _fn(ctx, FIR, "FirFilter.process", "F1")
     stores = [a for a in own_nodes(fn) if isinstance(a, ast.Assign) and dotted(a.targets[0]) == "self.x_prev"]
     if len(stores) != 1:
         raise AnalysisError("F1", f"{FIR}:FirFilter.process", f"{len(stores)} stores to self.x_prev")
-    # locals derived from the previous state
-    tainted = {"self.x_prev"}
-    changed = True
-    while changed:
-        changed = False
-        for a in sorted([x for x in own_nodes(fn) if isinstance(x, ast.Assign)], key=lambda x: x.lineno):
-            if a is stores[0] or a.lineno > stores[0].lineno:
-                continue
-            t = dotted(a.targets[0])
-            if t and t not in tainted and _depends_on(a.value, tainted):
-                tainted.add(t)
-                changed = True
-    ok = _depends_on(stores[0].value, tainted)
+    sl = straightline_ex(_body(fn))
+    if sl["ret"] is None or "self.x_prev" not in sl["env"]:
+        raise AnalysisError("F1", f"{FIR}:FirFilter.process", "process is not a straight-line computation (unrecognised form)")
+    x = fn.args.args[1].arg
+    # in the reconstructed values `self.x_prev` always denotes the history carried IN (the pre-state)
+    new_hist = np_canon(sl["env"]["self.x_prev"])
+    ok = "self.x_prev" in new_hist
     _ob(ctx, "F1", stores[0], "FIR: the history kept for the next block is taken from (previous history + new block), not from the new block alone", ok,
         "" if ok else f"`{norm(stores[0])}`: with blocks shorter than the filter memory, samples older than the current block are forgotten",
         "FirFilter.process:x_prev", FIR, "FirFilter.process")
-    # the convolution input is previous history followed by the new block
-    xf = [a for a in own_nodes(fn) if isinstance(a, ast.Assign) and norm(a.targets[0]) == "x_full"]
-    ok = len(xf) == 1 and norm(xf[0].value) == "np.concatenate([self.x_prev, x])" and xf[0].lineno < stores[0].lineno
-    _ob(ctx, "F1", fn, "FIR: each block is filtered together with the carried history (history first)", ok, "", "FirFilter.process:x_full", FIR, "FirFilter.process")
-    y = [a for a in own_nodes(fn) if isinstance(a, ast.Assign) and norm(a.targets[0]) == "y"]
-    ok = len(y) == 1 and norm(y[0].value) == "self.convolve_valid(x_full, self.h).astype(dtype)"
-    _ob(ctx, "F1", fn, "FIR: the output is the valid convolution of that input with the taps", ok, "", "FirFilter.process:y", FIR, "FirFilter.process")
+    ret = np_canon(sl["ret"])
+    want = f"self.convolve_valid(np.concatenate([self.x_prev, {x}]), self.h).astype({x}.dtype)"
+    import re as _re
+    m = _re.fullmatch(r"self\.convolve_valid\((?P<inp>.+), self\.h\)\.astype\((?P<dt>.+)\)", ret)
+    ok = m is not None and m.group("inp") == f"np.concatenate([self.x_prev, {x}])"
+    _ob(ctx, "F1", fn, "FIR: each block is filtered together with the carried history (history first)", ok, "" if ok else f"filters `{m.group('inp') if m else ret}`",
+        "FirFilter.process:x_full", FIR, "FirFilter.process")
+    ok = ret == want
+    _ob(ctx, "F1", fn, "FIR: the output is the valid convolution of that input with the taps, in the block's sample type", ok, "" if ok else f"returns `{ret}`",
+        "FirFilter.process:y", FIR, "FirFilter.process")
+    cv = _fn(ctx, FIR, "FirFilter.convolve_valid", "F1")
+    rets = sorted({np_canon(r.value) for r in own_nodes(cv) if isinstance(r, ast.Return) and r.value is not None} |
+                  {np_canon(a.value) for a in own_nodes(cv) if isinstance(a, ast.Assign) and any(isinstance(r, ast.Return) and isinstance(r.value, ast.Name)
+                                                                                             and r.value.id == norm(a.targets[0]) for r in own_nodes(cv))})
+    a0, a1 = cv.args.args[1].arg, cv.args.args[2].arg
+    ok = f"np.convolve({a0}, {a1}, mode='valid')" in rets
+    _ob(ctx, "F1", cv, "FIR: convolve_valid is numpy's 'valid' convolution (no implicit zero padding at the block edges)", ok, f"{rets}", "FirFilter.convolve_valid:mode", FIR, "FirFilter.convolve_valid")
 
 
 def rule_F2(ctx):
@@ -95,14 +104,20 @@ def rule_F2(ctx):
 
 
 def rule_F3(ctx):
+    from .sem import straightline_ex, np_canon
     fr = _fn(ctx, FIR, "FirFilter.get_remaining", "F3")
-    body = [s for s in fr.body if not (isinstance(s, ast.Expr) and isinstance(s.value, ast.Constant))]
-    calls = [c for c in own_nodes(fr) if isinstance(c, ast.Call) and norm(c) == "self.reset_state()"]
-    ok = len(calls) == 1 and isinstance(body[-1], ast.Return) and body[-2] is getattr(calls[0], "_parent", None)
-    _ob(ctx, "F3", fr, "FIR: flushing ends by resetting the state (a flushed filter behaves like a new one)", ok, "", "FirFilter.get_remaining:reset", FIR, "FirFilter.get_remaining")
-    t = full(fr)
-    ok = "x_full = np.concatenate([self.x_prev, np.zeros(self.m0)])" in t and "y = self.convolve_valid(x_full, self.h).astype(dtype)" in t
-    _ob(ctx, "F3", fr, "FIR: the delayed tail is produced by feeding delay_offset zeros after the carried history", ok, "", "FirFilter.get_remaining:tail", FIR, "FirFilter.get_remaining")
+    sl = straightline_ex(_body(fr), effect_havoc=lambda c: ["self.x_prev"] if norm(c.func) == "self.reset_state" else [])
+    if sl["ret"] is None:
+        raise AnalysisError("F3", f"{FIR}:FirFilter.get_remaining", "get_remaining is not a straight-line computation (unrecognised form)")
+    resets = [c for c, i in sl["effects"] if norm(c.func) == "self.reset_state"]
+    ret = np_canon(sl["ret"])
+    ok = len(resets) == 1 and "<after:" not in ret
+    _ob(ctx, "F3", fr, "FIR: flushing ends by resetting the state (a flushed filter behaves like a new one), after the tail was computed from the old state", ok,
+        "", "FirFilter.get_remaining:reset", FIR, "FirFilter.get_remaining")
+    want = "self.convolve_valid(np.concatenate([self.x_prev, np.zeros(self.m0)]), self.h).astype(self.x_prev.dtype)"
+    ok = ret == want
+    _ob(ctx, "F3", fr, "FIR: the delayed tail is produced by feeding delay_offset zeros after the carried history", ok, "" if ok else f"returns `{ret}`",
+        "FirFilter.get_remaining:tail", FIR, "FirFilter.get_remaining")
     ir = _fn(ctx, IIR, "IirFilter.get_remaining", "F3")
     ok = any(isinstance(c, ast.Call) and norm(c) == "self.reset_state()" for c in own_nodes(ir))
     _ob(ctx, "F3", ir, "IIR: flushing resets the state", ok, "", "IirFilter.get_remaining:reset", IIR, "IirFilter.get_remaining")
@@ -120,66 +135,149 @@ def _casts(fn, ctype="short"):
     return out
 
 
-def _bounded_on_paths(ctx, fn, cast, var):
-    """every CFG path from entry to the cast statement passes a test excluding var > HI and one excluding var < LO"""
+INF = float("inf")
+_ROUNDERS = ("cround", "trunc", "round", "floor", "ceil", "int", "lround", "rint")
+
+
+def _num(e):
+    try:
+        v = ast.literal_eval(e)
+        return v if isinstance(v, (int, float)) and not isinstance(v, bool) else None
+    except Exception:
+        return None
+
+
+def _interval(e, env, funcs, depth=0):
+    """closed interval containing every value of expression e (floats / ints), given intervals of the names in env"""
+    import math
+    k = _num(e)
+    if k is not None:
+        return (k, k)
+    if isinstance(e, ast.Name):
+        return env.get(e.id, (-INF, INF))
+    if isinstance(e, ast.BinOp) and isinstance(e.op, ast.MatMult) and isinstance(e.left, ast.Name) and e.left.id.startswith("__cast_"):
+        return _interval(e.right, env, funcs, depth)  # a C cast keeps the mathematical value when it is in range (checked separately)
+    if isinstance(e, ast.Call) and isinstance(e.func, ast.Name) and not e.keywords:
+        f = e.func.id
+        args = [_interval(a, env, funcs, depth) for a in e.args]
+        if f == "min" and args:
+            return (min(a[0] for a in args), min(a[1] for a in args))
+        if f == "max" and args:
+            return (max(a[0] for a in args), max(a[1] for a in args))
+        if f in _ROUNDERS and len(args) == 1:
+            lo, hi = args[0]
+            return (math.floor(lo) if lo != -INF else -INF, math.ceil(hi) if hi != INF else INF)
+        if f in funcs and depth < 3:
+            return _return_interval(funcs[f], [a for a in args], funcs, depth + 1)
+    if isinstance(e, ast.IfExp):
+        a, b = _interval(e.body, env, funcs, depth), _interval(e.orelse, env, funcs, depth)
+        return (min(a[0], b[0]), max(a[1], b[1]))
+    return (-INF, INF)
+
+
+def _walk_intervals(fn, funcs, arg_intervals=None, target=None, depth=0):
+    """abstractly execute every CFG path of fn over intervals.  Yields (kind, payload, env): ('return', value interval, env) at returns
+    and ('at', node, env) when the statement `target` is reached."""
     from ..core.cfg import CFG
     cfg = CFG(fn, "F4")
-    st = cast
-    while id(st) not in cfg.node_of:
-        st = st._parent
-    target = cfg.node_of[id(st)]
-    ups, lows = [], []
+    params = [a.arg for a in fn.args.args]
+    env0 = {p: (arg_intervals[i] if arg_intervals and i < len(arg_intervals) else (-INF, INF)) for i, p in enumerate(params)}
+    tnode = None
+    if target is not None:
+        st = target
+        while id(st) not in cfg.node_of:
+            st = st._parent
+        tnode = cfg.node_of[id(st)]
 
-    def stop(s, lab, src):
-        return s == target
+    def stop(s_, lab, src):
+        return s_ == tnode if tnode is not None else False
 
-    ok = True
-    bounds = None
+    out = []
     for path, end, lab in cfg.paths(cfg.entry, stop):
-        if end != target:
-            continue
-        up = lo = None
+        env = dict(env0)
+        same = {}  # name -> name it was copied from and still equals (`result = x`): a test on one bounds the other
+
+        def forget(name):
+            same.pop(name, None)
+            for k_ in [k_ for k_, v_ in same.items() if v_ == name]:
+                same.pop(k_)
+
+        feasible = True
         for n, l in path:
             node = cfg.nodes[n]
-            if node.kind == "test" and isinstance(node.ast, ast.If) and isinstance(node.ast.test, ast.Compare) and len(node.ast.test.ops) == 1:
-                t = node.ast.test
-                if isinstance(t.left, ast.Name) and t.left.id == var and isinstance(t.comparators[0], (ast.Constant, ast.UnaryOp)):
-                    try:
-                        k = ast.literal_eval(t.comparators[0])
-                    except Exception:
-                        continue
-                    if isinstance(t.ops[0], (ast.Gt, ast.GtE)) and l == "false":
-                        up = k
-                    if isinstance(t.ops[0], (ast.Lt, ast.LtE)) and l == "false":
-                        lo = k
-        if up is None or lo is None:
-            ok = False
-        else:
-            bounds = (lo, up)
-            if not (-32768.5 < lo and up < 32767.5):
-                ok = False
-    return ok, bounds
+            st = node.ast
+            if node.kind == "stmt" and isinstance(st, ast.Assign) and len(st.targets) == 1 and isinstance(st.targets[0], ast.Name):
+                forget(st.targets[0].id)
+                env[st.targets[0].id] = _interval(st.value, env, funcs, depth)
+                if isinstance(st.value, ast.Name) and st.value.id != st.targets[0].id:
+                    same[st.targets[0].id] = same.get(st.value.id, st.value.id)
+            elif node.kind == "stmt" and isinstance(st, ast.AnnAssign) and isinstance(st.target, ast.Name) and st.value is not None:
+                forget(st.target.id)
+                env[st.target.id] = _interval(st.value, env, funcs, depth)
+            elif node.kind == "stmt" and isinstance(st, ast.AugAssign) and isinstance(st.target, ast.Name):
+                forget(st.target.id)
+                env[st.target.id] = (-INF, INF)
+            elif node.kind in ("for",) and isinstance(st, ast.For):
+                for t in ast.walk(st.target):
+                    if isinstance(t, ast.Name):
+                        env[t.id] = (-INF, INF)
+            elif node.kind == "test" and isinstance(st, (ast.If, ast.While)) and isinstance(st.test, ast.Compare) and len(st.test.ops) == 1 and l in ("true", "false"):
+                t = st.test
+                left, op, right = t.left, t.ops[0], t.comparators[0]
+                k = _num(right)
+                if isinstance(left, ast.Name) and k is not None:
+                    lo, hi = env.get(left.id, (-INF, INF))
+                    taken = l == "true"
+                    if isinstance(op, (ast.Gt, ast.GtE)):
+                        if taken:
+                            lo = max(lo, k)
+                        else:
+                            hi = min(hi, k)
+                    elif isinstance(op, (ast.Lt, ast.LtE)):
+                        if taken:
+                            hi = min(hi, k)
+                        else:
+                            lo = max(lo, k)
+                    if lo > hi:
+                        feasible = False
+                    env[left.id] = (lo, hi)
+                    root = same.get(left.id, left.id)
+                    for other in [k_ for k_ in list(same) if same[k_] == root] + [root]:
+                        if other != left.id:
+                            olo, ohi = env.get(other, (-INF, INF))
+                            env[other] = (max(olo, lo), min(ohi, hi))
+            elif node.kind == "return" and st is not None:
+                if feasible:
+                    out.append(("return", _interval(st.value, env, funcs, depth) if st.value is not None else (0, 0), env))
+        if tnode is not None and end == tnode and feasible:
+            out.append(("at", tnode, env))
+    return out
+
+
+def _return_interval(fn, arg_intervals, funcs, depth=0):
+    rs = [v for kind, v, env in _walk_intervals(fn, funcs, arg_intervals, None, depth) if kind == "return"]
+    if not rs:
+        return (-INF, INF)
+    return (min(r[0] for r in rs), max(r[1] for r in rs))
 
 
 def rule_F4(ctx):
-    """every narrowing to a 16-bit integer is preceded by a two-sided bound"""
+    """every narrowing to a 16-bit integer receives a value inside the int16 range (interval analysis over the kernel's paths;
+    clamp helpers are summarised by the interval of their return value)"""
     n = 0
     for path in (FIR, IIR):
         m = ctx.pyx()[path]
+        funcs = dict(m.functions)
         for q, fn in sorted(m.functions.items()):
             for cast in _casts(fn, "short"):
                 n += 1
-                inner = cast.right
-                var = None
-                for x in ast.walk(inner):
-                    if isinstance(x, ast.Name) and x.id not in ("cround", "trunc", "round"):
-                        var = x.id
-                ok, bounds = (False, None)
-                if var is not None and var in [a.arg for a in fn.args.args]:
-                    ok, bounds = _bounded_on_paths(ctx, fn, cast, var)
+                params = [a.arg for a in fn.args.args]
+                ats = [env for kind, v, env in _walk_intervals(fn, funcs, None, cast) if kind == "at"]
+                ivs = [_interval(cast.right, env, funcs) for env in ats]
+                ok = bool(ivs) and all(-32768 <= lo and hi <= 32767 for lo, hi in ivs)
                 how = "in the function"
-                if not ok and var is not None and var in [a.arg for a in fn.args.args]:
-                    # bounded in every caller: the argument's reaching definition is a clamp call
+                if not ok and any(isinstance(x, ast.Name) and x.id in params for x in ast.walk(cast.right)):
+                    # bounded in every caller: the argument's interval at each call site
                     callers = []
                     for q2, f2 in m.functions.items():
                         for c in own_nodes(f2):
@@ -187,49 +285,40 @@ def rule_F4(ctx):
                                 callers.append((q2, f2, c))
                     ok = bool(callers)
                     for q2, f2, c in callers:
-                        a = c.args[0]
-                        good = False
-                        if isinstance(a, ast.Name):
-                            defs = [d for d in own_nodes(f2) if isinstance(d, ast.Assign) and norm(d.targets[0]) == a.id and d.lineno < c.lineno]
-                            if defs:
-                                last = max(defs, key=lambda d: d.lineno)
-                                if isinstance(last.value, ast.Call) and isinstance(last.value.func, ast.Name) and last.value.func.id in m.functions:
-                                    good = _is_clamp(ctx, m.functions[last.value.func.id])
-                        if not good:
+                        arg_iv = []
+                        for a in c.args:
+                            iv = (-INF, INF)
+                            if isinstance(a, ast.Name):
+                                # latest assignment to the argument in the statement list that contains the call
+                                st = c
+                                while not isinstance(st, ast.stmt):
+                                    st = st._parent
+                                block = None
+                                par = st._parent
+                                for field in ("body", "orelse", "finalbody"):
+                                    lst = getattr(par, field, None)
+                                    if isinstance(lst, list) and any(x is st for x in lst):
+                                        block = lst
+                                if block is not None:
+                                    idx = [i for i, x in enumerate(block) if x is st][0]
+                                    for prev in reversed(block[:idx]):
+                                        if isinstance(prev, ast.Assign) and len(prev.targets) == 1 and norm(prev.targets[0]) == a.id:
+                                            iv = _interval(prev.value, {}, funcs)
+                                            break
+                                        if any(isinstance(x, ast.Name) and x.id == a.id and isinstance(x.ctx, ast.Store) for x in ast.walk(prev)):
+                                            break
+                            else:
+                                iv = _interval(a, {}, funcs)
+                            arg_iv.append(iv)
+                        rs = [_interval(cast.right, env, funcs) for kind, v, env in _walk_intervals(fn, funcs, arg_iv, cast) if kind == "at"]
+                        if not rs or not all(-32768 <= lo and hi <= 32767 for lo, hi in rs):
                             ok = False
-                    how = "in every caller (argument comes from a clamp)"
+                    how = "in every caller (the argument's interval at the call site)"
                 _ob(ctx, "F4", cast, f"{q}: the value cast to a 16-bit integer is bounded to the int16 range first ({how})", ok,
                     "" if ok else f"`{norm(cast)[:60]}` can receive a value outside [-32768, 32767]: the C cast wraps around instead of saturating",
-                    f"{q}:{norm(cast)[:50]}", path, q)
+                    f"{q}:cast-short", path, q)
     if n < 2:
         raise AnalysisError("F4", "filters", f"{n} narrowing casts found (confirmed: 2)")
-
-
-def _is_clamp(ctx, fn):
-    """function returns its argument limited to [lo, hi] within the int16 range"""
-    arg = fn.args.args[0].arg
-    t = full(fn)
-    ifs = [i for i in own_nodes(fn) if isinstance(i, ast.If)]
-    up = lo = None
-    for i in ifs:
-        c = i.test
-        if isinstance(c, ast.Compare) and isinstance(c.left, ast.Name) and c.left.id == arg:
-            try:
-                k = ast.literal_eval(c.comparators[0])
-            except Exception:
-                continue
-            body_val = None
-            for a in i.body:
-                if isinstance(a, ast.Assign):
-                    try:
-                        body_val = ast.literal_eval(a.value)
-                    except Exception:
-                        pass
-            if isinstance(c.ops[0], ast.Gt) and body_val == k:
-                up = k
-            if isinstance(c.ops[0], ast.Lt) and body_val == k:
-                lo = k
-    return up is not None and lo is not None and -32768 <= lo and up <= 32767
 
 
 def rule_F5(ctx):
@@ -262,22 +351,37 @@ def rule_F5(ctx):
                 ok = not in_final and bool(fors) and c.lineno > max(f.end_lineno or f.lineno for f in fors)
                 det = "" if ok else "state is saved before/inside the sample loop or only in the cleanup"
             _ob(ctx, "F5", fn, f"{q}: {w} is written back to {prev} after the block", ok, det, f"{q}:{w}:save", IIR, q)
-        # per-sample recurrence
-        t = full(fn)
-        ok = "push_double_cbuffer(x_window" in t and "inner_prod_double_cbuffer(x_window, B) - inner_prod_double_cbuffer(y_window, A_true)" in t \
-            and "y_cur /= k_gain" in t and "push_double_cbuffer(y_window, y_cur)" in t
-        _ob(ctx, "F5", fn, f"{q}: y[n] = (B . x_window - A[1:] . y_window) / A[0], and y[n] enters the output history", ok, "", f"{q}:recurrence", IIR, q)
+        # per-sample recurrence: reconstructed from the loop body by sequential substitution
+        from .sem import straightline_ex, canon_ast
+        loops = [f for f in own_nodes(fn) if isinstance(f, ast.For) and any(isinstance(c, ast.Call) and isinstance(c.func, ast.Name) and c.func.id == "inner_prod_double_cbuffer"
+                                                                                   for c in ast.walk(f))]
+        ok, det = len(loops) == 1, "sample loop not found"
+        if ok:
+            lp = loops[0]
+            iv = lp.target.id if isinstance(lp.target, ast.Name) else "?"
+            sl = straightline_ex(lp.body)
+            eff = [(canon_ast(e), i) for e, i in sl["effects"]]
+            R = "(inner_prod_double_cbuffer(x_window, B) - inner_prod_double_cbuffer(y_window, A_true)) / k_gain"
+            xin = (f"push_double_cbuffer(x_window, x[{iv}])", f"push_double_cbuffer(x_window, __cast_double__ @ x[{iv}])")
+            if q == "_c_process":
+                want_y, want_out = f"push_double_cbuffer(y_window, {R})", f"y[{iv}] = {R}"
+            else:
+                want_y, want_out = f"push_double_cbuffer(y_window, _c_bound({R}))", f"y[{iv}] = _c_fix_int(_c_bound({R}))"
+            texts = [t for t, i in eff]
+            ok = not sl["rest"] and len(texts) == 3 and texts[0] in xin and texts[1] == want_y and texts[2] == want_out
+            det = "" if ok else f"loop body effects: {texts}"
+            if ok:
+                # the filter sum is taken after the new input entered x_window and before the new output enters y_window
+                first_sum = min(i for i, st in enumerate(lp.body) if any(isinstance(c, ast.Call) and isinstance(c.func, ast.Name) and c.func.id == "inner_prod_double_cbuffer"
+                                                                       for c in ast.walk(st)))
+                ok = eff[0][1] < first_sum < eff[1][1]
+                det = "" if ok else "the filter sum is not taken between the two history updates"
+        _ob(ctx, "F5", fn, f"{q}: y[n] = (B . x_window - A[1:] . y_window) / A[0], and y[n] enters the output history", ok, det, f"{q}:recurrence", IIR, q)
     for cls, cq in (("IirFilter", "_c_process"), ("ChickSysCustomIirFilter", "_c_chickensys_process")):
         pf = _fn(ctx, IIR, f"{cls}.process", "F5")
         calls = [c for c in own_nodes(pf) if isinstance(c, ast.Call) and norm(c.func) == cq]
         ok = len(calls) == 1 and [norm(a) for a in calls[0].args][2:] == ["self.B", "self.A", "self.x_prev", "self.y_prev"]
         _ob(ctx, "F5", pf, f"{cls}.process hands the filter's own history arrays to the kernel (updated in place)", ok, "", f"{cls}.process:state-args", IIR, f"{cls}.process")
-    # chickensys: clamp precedes history push and narrowing
-    fn = _fn(ctx, IIR, "_c_chickensys_process", "F5")
-    t = full(fn)
-    i1, i2, i3 = t.find("y_cur = _c_bound(y_cur)"), t.find("push_double_cbuffer(y_window, y_cur)"), t.find("y_final = _c_fix_int(y_cur)")
-    ok = 0 <= i1 < i2 < i3
-    _ob(ctx, "F5", fn, "ChickenSys IIR: the output is clamped before it enters the history and before it is narrowed", ok, "", "_c_chickensys_process:clamp-order", IIR, "_c_chickensys_process")
 
 
 def rule_F6(ctx):
